@@ -58,7 +58,7 @@ def tables_for(sizes):
     return [[{'id': r * 1000 + i, 't': 'row-%d-%d é' % (r, i)} for i in range(n)] for r, n in enumerate(sizes)]
 
 
-def make_flow(tables, ncp, cpdir, cnt, fail_at=None, src_fail=None, up_fail=None):
+def make_flow(tables, ncp, cpdir, cnt, fail_at=None, src_fail=None, up_fail=None, early_stop=False):
     d = lab.df()
 
     def source(i):
@@ -73,7 +73,17 @@ def make_flow(tables, ncp, cpdir, cnt, fail_at=None, src_fail=None, up_fail=None
                           for i in range(len(tables))]}
     steps = [d.load((desc, [source(i) for i in range(len(tables))]), strip=False),
              d.add_field('a', 'integer', 1)]
-    if up_fail is not None:
+    if isinstance(up_fail, tuple) and up_fail[0] == 'row_fn_stop_iteration':
+        # a ROW FUNCTION in front of the checkpoints that lets a StopIteration escape (a bare next() on an exhausted
+        # iterator) at some row: a failure like any other - it must not look like the end of the resource
+        seen_ = {'n': 0}
+
+        def lookup(row):
+            seen_['n'] += 1
+            if seen_['n'] == up_fail[1] + 1:
+                next(iter(()))
+        steps.append(lookup)
+    elif up_fail is not None:
         # a step IN FRONT of the checkpoints whose end-of-stream work fails: after the last row of the last resource
         # ('res_end') or after the last resource ('pkg_end') - every row has passed the checkpoint writer by then
         def finishing(package):
@@ -116,6 +126,13 @@ def make_flow(tables, ncp, cpdir, cnt, fail_at=None, src_fail=None, up_fail=None
             except Exception:
                 pass
         steps.append(tolerant)
+    if early_stop:
+        import itertools
+
+        def first_row_only(rows):
+            # a later step that stops reading every resource after its first row - during the SAVING run
+            return itertools.islice(rows, 1)
+        steps.append(first_row_only)
     steps.append(d.add_field('z', 'integer', 9))
     return steps
 
@@ -225,9 +242,9 @@ def run_case(case):
                 'fields': [[f['name'] for f in r['schema']['fields']] for r in dp['resources']],
                 'rows': [[sorted(row.items()) for row in res] for res in results]}
 
-    def run_plain(cpdir, fail_at=None, src_fail=None, up_fail=None):
+    def run_plain(cpdir, fail_at=None, src_fail=None, up_fail=None, early_stop=False):
         cnt = {'pulled': 0}
-        out = lab.run(make_flow(tables, ncp, cpdir, cnt, fail_at, src_fail, up_fail), validate=True)
+        out = lab.run(make_flow(tables, ncp, cpdir, cnt, fail_at, src_fail, up_fail, early_stop), validate=True)
         rep = {'ok': out.ok, 'pulled': cnt['pulled']}
         if out.ok:
             rep['summary'] = summarize(out.results, out.dp)
@@ -376,12 +393,31 @@ def run_case(case):
                 % (what, ncp - 1), 'committed_on_failure')
         recover(cpdir, complete, what)
         shutil.rmtree(cpdir, ignore_errors=True)
+    # the saving run has a later step that stops reading early: what it saves is complete all the same
+    if case['mode'] == 'downstream' and total:
+        cpdir = 'e_stop'
+        prepare(cpdir)
+        code, rep = crashlab.in_child(lambda: run_plain(cpdir, early_stop=True), os.path.join(scratch, 'rep.json'))
+        what = 'a later step stops reading every resource after one row while the checkpoints are being saved'
+        counters['crash_points_executed'] += 1
+        cov['mode']['later_step_stops_early_during_saving_run'] = 1
+        if not rep or not rep.get('ok'):
+            add('recovery_failed', '%s: the run failed: %s' % (what, (rep or {}).get('error', code)), 'early_stop_run_failed')
+        else:
+            complete = post_crash(cpdir, what)
+            if set(range(ncp)) - set(complete):
+                add('checkpoint_content', '%s: checkpoints %r are missing or incomplete after the run'
+                    % (what, sorted(set(range(ncp)) - set(complete))), 'early_stop_checkpoint_incomplete')
+            recover(cpdir, complete, what)
+        shutil.rmtree(cpdir, ignore_errors=True)
     # a step in front of the checkpoints fails in its end-of-stream work (all rows have been written by then)
-    for up in (('res_end', 'pkg_end') if case['mode'] == 'downstream' else ()):
-        cpdir = 'u_%s' % up
+    for up in (('res_end', 'pkg_end') + tuple(('row_fn_stop_iteration', k_) for k_ in sorted({0, total // 2, max(total - 1, 0)}) if total)
+               if case['mode'] == 'downstream' else ()):
+        cpdir = 'u_%s' % (up if isinstance(up, str) else '%s_%d' % up)
         prepare(cpdir)
         code, rep = crashlab.in_child(lambda: run_plain(cpdir, up_fail=up), os.path.join(scratch, 'rep.json'))
-        what = 'a step before the checkpoints fails at the end of its stream (%s)' % up
+        what = 'a step before the checkpoints fails at the end of its stream (%s)' % up if isinstance(up, str) else \
+            'a row function before the checkpoints lets a StopIteration escape at row %d' % up[1]
         if not rep or rep.get('ok'):
             add('error_swallowed', '%s: run did not fail (%r)' % (what, rep), 'upstream_end_error_swallowed')
         counters['crash_points_executed'] += 1
